@@ -57,7 +57,7 @@ ASSUMPTIONS = [
     "block valued systems (static_matrix<vq::Q,2,2>): the model of a solver is the SCALAR model of Krylov.v run on the expanded system "
     "(inner products of block entries, block spmv/vmul and the scalar coefficients coincide with those of the expanded system in exact "
     "arithmetic; idrs: the block constructor stores one draw in both components of an entry, the model receives the duplicated draws)",
-    "complex valued systems (std::complex<double>): truthfulness only, |returned - true| <= 2^-40 + 2^-30 * true with the true relative residual "
+    "complex valued systems (std::complex<double>): truthfulness only, |returned - true| <= 2^-44 + 2^-36 * true with the true relative residual "
     "recomputed exactly on the expanded real system; no model of the complex recurrences (complex coefficients) is compared",
     "rate clause (C01_richardson_rate*, C01_richardson_amg_*): ordered commutative ring, damping = 1, a solution u of A u = f exists; the "
     "explicit factor 5/16 is proved for ONE concrete hierarchy (1-D Poisson n = 4, Jacobi 1/2, V(1,1)); 'rate = spectral radius' is not formalised",
